@@ -18,6 +18,10 @@ Section Spec.
   Definition seen (ops : list (op T)) : list T := seen_from [] ops.
   Definition distinct (ops : list (op T)) : nat := length (seen ops).
 
+  (* the number of Add calls of a history *)
+  Fixpoint nadds (ops : list (op T)) : nat :=
+    match ops with [] => O | OAdd _ _ :: r => S (nadds r) | OReset :: r => nadds r end.
+
   (* a stream of Adds without oracle *)
   Definition adds (vs : list T) : list (op T) := map (fun v => OAdd v None) vs.
 End Spec.
